@@ -258,7 +258,7 @@ def main():
     cases = corpus_cases()
     ncorpus = len(cases)
     cases += fixed_cases()
-    n = 1500 if c.tier == "quick" else 40000
+    n = 1500 if c.tier == "quick" else 12000
     for i in range(n):
         cases.append(gen_case(rng, stats, boundary=(i % 5 == 4)))
     nops = sum(len(x["ops"]) for x in cases)
